@@ -15,5 +15,6 @@ CONSTANTS
   SignalOnInsert = TRUE
   FirstSighting = TRUE
   SeedAtomic = FALSE
+  RegisterInThunk = TRUE
 INVARIANTS M_C18_Replay M_C18_Alternate M_C18_Elide
 CHECK_DEADLOCK FALSE
